@@ -272,6 +272,7 @@ void init() {
 		ApiOpts ao;
 		ao.segments = i % 2 == 0;
 		ao.partitions = i % 3 == 0;
+		ao.texturing = (i / 6) % 2 == 1;   // every second OB / FO3 model: NiTexturingProperty with source textures
 		ao.modelSpace = (i % 6 == 2 || i % 6 == 3) && (i / 6) % 2 == 0;   // every second SK / SSE model
 		ApiModel m = buildApiModel(mix(g_cfg.seed, 0xC14A00 + (uint64_t)i), i, &ao);
 		if (m.ok) g_models.push_back({"api:" + m.desc, m.bytes});
